@@ -121,7 +121,8 @@ class S3TapeCassette(TapeCassette):
 
         _id = self.RECORDING_ID.format(
             category=category,
-            day=datetime.today().strftime(self.DAY_FORMAT),
+            # Lookup enumerates the day folders in utc (see _get_id_prefixes), the folder must not depend on the local time zone
+            day=datetime.utcnow().strftime(self.DAY_FORMAT),
             id=uuid.uuid1().hex
         )
         logging.info(u'Creating a new recording with id {}'.format(_id))
